@@ -5303,8 +5303,10 @@ typename SPxSolverBase<R>::Status SoPlexBase<R>::_solveRealForRational(bool from
    _disableSimplifierAndScaler();
 #endif
 
-   // reset basis to slack basis when solving from scratch
-   if(fromscratch)
+   // reset basis to slack basis when solving from scratch; without a basis to start from the simplifier and the scaler
+   // are enabled as well and change the LP inside the solver, so a basis (and its factorization) that the solver still
+   // holds from an earlier solve must not be kept either
+   if(fromscratch || !_hasBasis)
       _solver.reLoad();
 
    // start timing
